@@ -50,6 +50,45 @@ def _caught(case, a):
     return None
 
 
+STD_SCRIPT = r'''
+import sys
+sys.path.insert(0, sys.argv[1])
+from pbhhg_py.main import main
+from pbhhg_py import abstract_syntax as AS
+try:
+    r = main("<t>", sys.argv[2], True)
+    sys.stderr.write("RESULT\n")
+except AS.UnsuspectedHangeulError as e:
+    sys.stderr.write("LANGUAGE-EXCEPTION\n")
+except RuntimeError as e:
+    sys.stderr.write("LIMIT\n" if str(e) == "Maximum Stack Size Exceeded." else "HOST %s: %s\n" % (type(e).__name__, e))
+except BaseException as e:
+    sys.stderr.write("HOST %s: %s\n" % (type(e).__name__, e))
+'''
+
+
+@monitor('c04_std_closed')
+def _std_closed(case, a):
+    import subprocess, sys, tempfile, os
+    from .. import common
+    progs = {
+        'print after closing descriptor 1': "ㄴ ㅈㄹ ㄱㄴㅎㄷ (ㄷ ㄱㅇㄱ ㅎㄴ ((ㄴ ㅁㅈㅎㄴ) ㅈㄹㅎㄴ ㅎ) ㄱㄹㅎㄷ ㅎ) ㄱㄹㅎㄷ",
+        'print after closing descriptor 1, handled': "(ㄴ ㅈㄹ ㄱㄴㅎㄷ (ㄷ ㄱㅇㄱ ㅎㄴ ((ㄴ ㅁㅈㅎㄴ) ㅈㄹㅎㄴ ㅎ) ㄱㄹㅎㄷ ㅎ) ㄱㄹㅎㄷ) (ㄱㅇㄱ ㄱㅅㅎㄴ ㅎ) (ㄷ ㄱㅅㅎㄴ ㅎ) ㄱㄹㅎㄹ",
+        'input after closing descriptor 0': "ㄱ ㄹ ㄱㄴㅎㄷ (ㄷ ㄱㅇㄱ ㅎㄴ (ㄹㅎㄱ ㅎ) ㄱㄹㅎㄷ ㅎ) ㄱㄹㅎㄷ",
+        'write to descriptor 1 opened read-only': "ㄴ ㄹ ㄱㄴㅎㄷ ((ㄱ ㄴ ㅂ ㅂ ㅂㅎㄷ ㅎㄷ) (ㅁㅈㅎㄱ) ㅎㄴ ㅈㄹ ㄱㅇㄱ ㅎㄷ ㅎ) ㄱㄹㅎㄷ",
+        'open a descriptor that is not open': "ㅈㅈㅈ ㄹ ㄱㄴㅎㄷ",
+    }
+    with tempfile.TemporaryDirectory(prefix='uhverif_std_') as d:
+        sf = os.path.join(d, 'run.py')
+        open(sf, 'w').write(STD_SCRIPT)
+        for what, prog in progs.items():
+            p = subprocess.run([sys.executable, sf, common.REPO, prog], input=b"abc\n", capture_output=True, cwd=d, timeout=60)
+            verdict = p.stderr.decode('utf-8', 'replace').strip().splitlines()[-1:] or ['(no verdict)']
+            if verdict[0].startswith('HOST') or verdict[0] == '(no verdict)':
+                return f"{what}: {verdict[0]} (program {prog!r})"
+    return None
+
+
 def cases(rng, tier):
     per = 6 if tier == 'quick' else 120
     # (1) the call-shape matrix: every callee × arity 0..4 × sampled argument kinds × edge values
@@ -88,6 +127,33 @@ def cases(rng, tier):
     yield from file_cases(rng, tier)
     # (6) imports that cannot succeed
     yield from import_cases(rng, tier)
+    # (8) the same callees invoked *by a built-in* instead of a call expression: as ㄱㄹ continuation and handler (called
+    #     while the action is being executed), ㅅㄷ handler, and through map / filter / fold / pipe / spread / collect
+    SITES = [
+        ("bind-cont", lambda f, v: f"({v} ㄱㅅㅎㄴ) {f} ㄱㄹㅎㄷ"),
+        ("bind-cont-handled", lambda f, v: f"(({v} ㄱㅅㅎㄴ) {f} ㄱㄹㅎㄷ) (ㄱㅇㄱ ㄱㅅㅎㄴ ㅎ) (ㄱㅇㄱ ㄱㅅㅎㄴ ㅎ) ㄱㄹㅎㄹ"),
+        ("bind-handler", lambda f, v: f"((ㄱ ㄱㅅㅎㄴ) ({v} ㄷㅂㅎㄴ ㄷㅈㅎㄴ ㅎ) ㄱㄹㅎㄷ) (ㄱㅇㄱ ㄱㅅㅎㄴ ㅎ) {f} ㄱㄹㅎㄹ"),
+        ("try-handler", lambda f, v: f"({v} ㄷㅂㅎㄴ ㄷㅈㅎㄴ) {f} ㅅㄷㅎㄷ"),
+        ("map", lambda f, v: f"({v} {v} ㅁㄹㅎㄷ) {f} ㅁㄷㅎㄷ"),
+        ("filter", lambda f, v: f"({v} ㅁㄹㅎㄴ) {f} ㅅㅂㅎㄷ"),
+        ("foldl", lambda f, v: f"{f} ({v} {v} ㅁㄹㅎㄷ) ㅅㄹㅎㄷ"),
+        ("foldr", lambda f, v: f"({v} {v} ㅁㄹㅎㄷ) {f} ㅅㄹㅎㄷ"),
+        ("pipe", lambda f, v: f"{v} ((ㄱㅇㄱ ㅎ) {f} ㄴㄱㅎㄷ) ㅎㄴ"),
+        ("spread", lambda f, v: f"({v} ㅁㄹㅎㄴ) ({f} ㅁㅂㅎㄴ) ㅎㄴ"),
+        ("spread2", lambda f, v: f"({v} {v} ㅁㄹㅎㄷ) ({f} ㅁㅂㅎㄴ) ㅎㄴ"),
+        ("collect", lambda f, v: f"{v} ({f} ㅂㅂㅎㄴ) ㅎㄴ"),
+    ]
+    for f in CALLEES:
+        fr = "(" + render(f) + ")"
+        for site, mk in SITES:
+            for _ in range(2 if tier == 'quick' else 25):
+                v = "(" + render(rng.choice(EDGE[rng.choice(KINDS)])) + ")"
+                prog = mk(fr, v)
+                yield Case(program=prog, stdin="in\n", tag='site-' + site)
+                if rng.random() < 0.3:
+                    yield Case(program=render(wrap_try(raw("(" + prog + ")"))), stdin="in\n", tag='site-' + site + '-try', monitor='c04_caught')
+    # (9) the standard streams closed behind the interpreter's back (ㄱㄴ on descriptor 0 / 1, then ㄷ): in a child process
+    yield Case(program="ㄱ", tag='std-closed', monitor='c04_std_closed', skip_model=True, timeout=120)
     # (7) random program texts
     for _ in range(200 if tier == 'quick' else 20000):
         text = " ".join(rng.choice(["ㄱ", "ㄴ", "ㄷ", "ㅁㄹ", "ㅎ", "ㅎㄴ", "ㅎㄷ", "ㅇ", "ㅇㄱ", "ㄱㅇ", "ㅈㅈ", "ㄷㅈ", "ㄴㄱ", "ㅂ", "ㅅㄷ", "ㄱㅅ", "ㄱㄹ"])
@@ -160,7 +226,7 @@ SPEC = {
             'malformed strings, invalid UTF-8, nested / failing lists, dicts, closures, pipes, codecs, exceptions, I/O '
             'actions); every kind of value as callee; numeric pairs for the binary operators; numeric strings × bases; '
             'file operations in every handle state (wrong mode, closed, bad offset / count / whence, missing / directory / '
-            'nested paths) with and without ㄱㄹ handler; failing imports, alone and after other modules were loaded; random word sequences. Outcome of the '
+            'nested paths) with and without ㄱㄹ handler; failing imports, alone and after other modules were loaded; every callee invoked by a built-in (ㄱㄹ continuation / handler during execution, ㅅㄷ handler, map, filter, folds, pipe, spread, collect) on edge values; the standard streams closed through ㄱㄴ / ㄷ (child process); random word sequences. Outcome of the '
             'implementation must be value / language exception (with location) / stack-limit report — any other '
             'exception escaping main.main is a failing input — and equal the model\'s outcome. Non-trivial: all cases',
     'trusted': [],
